@@ -10,12 +10,12 @@ cd $wt
 res() { echo "$1: $2"; }
 git apply --check $src/patch.diff || { echo "patch does not apply"; git -C /repo worktree remove --force $wt; exit 1; }
 git apply $src/patch.diff
-t1=$(cargo test --offline 2>&1 | grep "^test result" | head -1)
+t1=$(cargo test --offline 2>&1 | grep "^test result:" | head -1)
 b1=$(cargo build --offline --features verif_hooks 2>&1 | tail -1)
 mkdir -p tests; cp $src/demo.rs tests/demo.rs
-d1=$(cargo test --offline --test demo 2>&1 | grep "^test result" | head -1)
+d1=$(cargo test --offline --test demo 2>&1 | grep "^test result:" | head -1)
 git apply -R $src/patch.diff
-d0=$(cargo test --offline --test demo 2>&1 | grep "^test result" | head -1)
+d0=$(cargo test --offline --test demo 2>&1 | grep "^test result:" | head -1)
 res "suite with change" "$t1"; res "hooks build" "$b1"; res "demo with change" "$d1"; res "demo without change" "$d0"
 cd /; git -C /repo worktree remove --force $wt
 mkdir -p /verif/seeded/$name
